@@ -122,7 +122,7 @@ func (C42) Execute(t *testing.T, sc *core.Scenario) *core.Result {
 	s.PCTDepth = b.PCT
 	s.KeepTrace = len(b.Sched) > 0
 	s.OnRelease = func(t *core.Task) { sos.SetActor(t.Actor) }
-	sos.LockWait = func() bool { return s.YieldHere("flock-wait") }
+	sos.LockWait = func() bool { return s.Regain("woken:flock") || s.YieldBlocked("flock-wait") }
 	elig := map[string]bool{}
 	for _, o := range b.YieldOps {
 		elig[o] = true
@@ -138,11 +138,16 @@ func (C42) Execute(t *testing.T, sc *core.Scenario) *core.Result {
 			case "lstat", "fstat":
 				op = "stat"
 			}
-			if !elig[op] {
-				return
-			}
 			// temp files are created under the temp file provider's mutex
 			if op == "create" && strings.HasPrefix(c.Path, "tmp/") {
+				return
+			}
+			// a task that slept (LocalBlobstore.Put waits 10 ms for the mtime to move) comes back
+			// under the scheduler at its first file operation, whatever the operation
+			if s.Regain("woken:" + op) {
+				return
+			}
+			if !elig[op] {
 				return
 			}
 			s.YieldHere(op + ":" + filepath.Base(filepath.Dir(c.Path)))
